@@ -95,6 +95,7 @@ def main(tier):
     c = vlib.Check("C18", tier)
     c.phase_translator(["audit_sp", "nodes_xml"])
     c.phase_proofs()
+    c.phase_proofs("HtmlBytes")   # byte-level forms via the lexer round trip (Proofs/HtmlLexRt.v)
     quick = tier == "quick"
     rng = c.rng
 
